@@ -12,7 +12,8 @@ from jax import random as jr
 from lerax.env.classic_control import (Acrobot, CartPole, ContinuousMountainCar, MountainCar,
                                        Pendulum)
 from lerax.space import Box, Discrete
-from lerax.wrapper import ClipAction, FlattenObservation, RescaleAction, TimeLimit
+from lerax.wrapper import (ClipAction, FlattenObservation, RescaleAction, RescaleObservation,
+                           TimeLimit)
 
 
 def _variants(env, name):
@@ -20,6 +21,9 @@ def _variants(env, name):
            (f"FlattenObservation({name})", FlattenObservation(env))]
     if isinstance(env.action_space, Box) and bool(np.isfinite(np.asarray(env.action_space.low)).all()):
         out.append((f"ClipAction(RescaleAction({name}))", ClipAction(RescaleAction(env))))
+    osp = env.observation_space
+    if isinstance(osp, Box) and bool(np.isfinite(np.asarray(osp.low)).all() and np.isfinite(np.asarray(osp.high)).all()):
+        out.append((f"RescaleObservation({name})", RescaleObservation(env)))
     return out
 
 
@@ -45,11 +49,12 @@ def _action_seq(rng, env, kind, H, key):
     return jax.vmap(lambda k: sp.sample(key=k))(jr.split(key, H))
 
 
-def _check_rollout(ctx, name, env, kind, H, functional, idx):
+def _check_rollout(ctx, name, env, kind, H, functional, idx, pump=None):
     rng = ctx.rng
     key = jr.key(int(rng.integers(0, 2**31)))
     k_act, k_run = jr.split(key)
-    actions = _action_seq(rng, env, kind, H, k_act)
+    actions = _action_seq(rng, env, "random" if pump is not None else kind, H, k_act)
+    a_lo, a_hi = _action_seq(rng, env, "low", 1, k_act)[0], _action_seq(rng, env, "high", 1, k_act)[0]
 
     @eqx.filter_jit
     def roll(actions, key):
@@ -58,6 +63,9 @@ def _check_rollout(ctx, name, env, kind, H, functional, idx):
 
         def body(state, xs):
             a, k = xs
+            if pump is not None:
+                # energy pumping: push in the direction of motion (bang-bang on a velocity coordinate)
+                a = jnp.where(state.unwrapped.y[pump[0]] * pump[1] > 0, a_hi, a_lo)
             if functional:
                 ks = jr.split(k, 5)
                 nxt = env.transition(state, a, key=ks[0])
@@ -144,6 +152,11 @@ def _check_action_space(ctx, name, env, idx):
                      key="c02:action-rejected")
 
 
+# (index of a velocity coordinate in the base state y, sign): push with / against the motion
+PUMPS = {"CartPole": [(1, +1), (3, +1)], "MountainCar": [(1, +1), (1, -1)], "Pendulum": [(1, +1), (1, -1)],
+         "Acrobot": [(2, +1), (3, +1)], "ContinuousMountainCar": [(1, +1), (1, -1)]}
+
+
 def run(ctx):
     classic = [("CartPole", CartPole), ("MountainCar", MountainCar), ("Pendulum", Pendulum),
                ("Acrobot", Acrobot), ("ContinuousMountainCar", ContinuousMountainCar)]
@@ -152,7 +165,9 @@ def run(ctx):
     for cname, cls in classic:
         variants = _variants(cls(), cname)
         if ctx.quick:
-            variants = [variants[0], variants[int(ctx.rng.integers(1, len(variants)))]]
+            pick = [v for v in variants[1:] if v[0].startswith("RescaleObservation")] or \
+                   [variants[int(ctx.rng.integers(1, len(variants)))]]
+            variants = [variants[0], pick[0]]
         for name, env in variants:
             _check_action_space(ctx, name, env, idx)
             kinds = ["random", "low", "high", "alternate"]
@@ -163,6 +178,23 @@ def run(ctx):
                 idx += 1
             _check_rollout(ctx, name, env, "random", H, functional=True, idx=idx)
             idx += 1
+            # resonant action sequences reach the walls / limits that random actions never do
+            for (vi, sg) in PUMPS[cname]:
+                _check_rollout(ctx, name, env, f"pump(y[{vi}],{sg:+d})", max(H, 256), functional=bool(vi % 2 == 0) or True,
+                               idx=idx, pump=(vi, sg))
+                idx += 1
+    # constructor configurations under which passing the goal does not end the episode
+    for cname, cls, kw in [("MountainCar[goal_velocity]", MountainCar, {"goal_velocity": 0.065}),
+                           ("ContinuousMountainCar[goal_velocity]", ContinuousMountainCar, {"goal_velocity": 0.065})]:
+        try:
+            env = cls(**kw)
+        except TypeError as e:
+            ctx.note(f"{cname}: option not supported: {e}"[:120])
+            continue
+        for name, e2 in ([(cname, env)] if ctx.quick else _variants(env, cname)):
+            for (vi, sg) in [(1, +1), (1, -1)]:
+                _check_rollout(ctx, name, e2, f"pump(y[{vi}],{sg:+d})", 400, functional=False, idx=idx, pump=(vi, sg))
+                idx += 1
     if ctx.quick:
         ctx.note("MuJoCo and Unitree G1 environments are rolled out in the thorough tier only (MJX compile time)")
         return
